@@ -244,6 +244,7 @@ type HarnessRun struct {
 
 	ContinueAfterViolation bool
 	ContinueAfterRace      bool
+	DeadlockUnlisted       bool
 
 	mu           sync.Mutex
 	Violations   []*Violation
